@@ -17,15 +17,22 @@ BaseType(e, i) == IF i <= Len(e.cons) /\ Len(e.cons[i]) > 0
                   THEN (IF Allowed(e, i, "f32") THEN "f32" ELSE IF Allowed(e, i, "i64") THEN "i64" ELSE IF Allowed(e, i, "bool") THEN "bool" ELSE e.cons[i][1])
                   ELSE "f32"
 Base(e, n) == [i \in 1..n |-> BaseType(e, i)]
-GateCase(e, dts, feat) ==
+\* shk: the shape of the tensor supplied at each position ("one" [1], "empty" [0], "empty2" [2,0], "scalar" [], "mat" [2,3]); the
+\* verdict of the gate does not depend on it - an element type is carried by a tensor with no elements as by any other
+ShapeKinds == {"empty", "empty2", "scalar", "mat"}
+GateCaseS(e, dts, shk, feat) ==
    [prop |-> "C15", fam |-> "gate", kind |-> "gate", op |-> e.name, attrs |-> <<>>, inputs |-> <<>>, nout |-> 0,
     allowed |-> (IF GateOutcome(e, dts).expect = "error" THEN MustError ELSE NoCrash),
-    x |-> [dts |-> dts] @@ GateOutcome(e, dts), feat |-> <<GateOutcome(e, dts).expect, feat>>, known |-> <<>>]
+    x |-> [dts |-> dts, shk |-> shk] @@ GateOutcome(e, dts), feat |-> <<GateOutcome(e, dts).expect, feat>>, known |-> <<>>]
+GateCase(e, dts, feat) == GateCaseS(e, dts, [i \in 1..Len(dts) |-> "one"], feat)
 MaxN(e) == IF e.name = "Concat" THEN 4 ELSE e.max + 2
 GateCases(e) ==
    \A n \in 0..MaxN(e) :
       /\ P(GateCase(e, Base(e, n), "count"))
       /\ \A i \in 1..n : \A d \in GateTypes : d # BaseType(e, i) => P(GateCase(e, [Base(e, n) EXCEPT ![i] = d], "dtype"))
+      /\ \A i \in 1..n : \A d \in GateTypes \ {"int"} : \A k \in ShapeKinds :
+            P(GateCaseS(e, [Base(e, n) EXCEPT ![i] = d], [[j \in 1..n |-> "one"] EXCEPT ![i] = k], "dtype_shape_" \o k))
+      /\ \A k \in ShapeKinds : P(GateCaseS(e, Base(e, n), [j \in 1..n |-> k], "count_shape_" \o k))
       /\ \A i \in 1..n : i > e.min => P(GateCase(e, [Base(e, n) EXCEPT ![i] = "nil"], "nil_optional"))
       /\ \A i, j \in 1..n : (i > e.min /\ j > i) => P(GateCase(e, [Base(e, n) EXCEPT ![i] = "nil", ![j] = "nil"], "nil_optional"))
       \* an absent optional input combined with a perturbed element type at another position (before or after it)
